@@ -22,9 +22,9 @@ from ..registry import claim
 
 claim('C18', 'model_checking',
       'explicit-state BFS over traffic histories executed in lock-step on two real buses (BecomeMonitor vs. disconnect of the same connection): differential oracle for non-interference plus an exact multiset oracle for what the monitor receives',
-      'Histories over sends (delivered / denied by send policy / denied by receive policy / no owner / to the driver, all four types), broadcasts, RequestName/ReleaseName, connect/Hello/disconnect and BecomeMonitor with four filters '
+      'Histories over sends (delivered / denied by send policy / denied by receive policy / no owner / to the driver, all four types), broadcasts, RequestName/ReleaseName, connect/Hello/disconnect and BecomeMonitor with seven filters '
       '(by a fresh connection or one that owns a name, is queued, holds match rules or has a call outstanding) are explored breadth-first. Run B replaces each BecomeMonitor by a disconnect: all other clients must observe identical '
-      'message sequences in both runs. The monitor must receive exactly the multiset of filter-matching messages the harness knows the bus processed, each with the true sender, and EOF once it sends anything. Filters include rules naming the unique name of a connection that disconnects later; an unfiltered reference monitor accompanies every filtered one; a reload of the unchanged configuration is an operation; NameLost signals to a departing connection are required at the monitor; a throw-away connection speaks before Hello under another client\'s name.',
+      'message sequences in both runs. The monitor must receive exactly the multiset of filter-matching messages the harness knows the bus processed, each with the true sender, and EOF once it sends anything. Filters include rules naming the unique name of a connection that disconnects later; an unfiltered reference monitor accompanies every filtered one; a reload of the unchanged configuration is an operation; NameLost signals to a departing connection are required at the monitor; a throw-away connection speaks before Hello under another client\'s name; the monitor may close its connection (nothing of it stays behind, traffic goes on).',
       'Trusts pyv/models/matchrules.py for filter matching. One monitor at a time in the quick tier. The bus shows a placeholder sender for messages of connections that have not completed Hello; only "not a name of another connection" is required there.',
       'DESIGN.md section 4 C18')
 
@@ -155,6 +155,9 @@ class Session:
         elif self.monitor is not None:
             for k in MSEND_KINDS:
                 ops.append(['msend', k])
+            # the monitor goes away by itself (socket closed): its filter rules and its entry in the monitor list go with
+            # it, the others notice nothing, and the traffic after it is judged like any other
+            ops.append(['mdisc'])
         return ops
 
     # ---- helpers -----------------------------------------------------------------
@@ -528,6 +531,20 @@ class Session:
                 self.refmon = False
                 self.dead.add('R0')
             self.hit('monitor-sends')
+        elif kind == 'mdisc':
+            self.a.close_slot('M')
+            self.monitor = None
+            self.dead.add('M')
+            self.a.slots['M'] = None
+            if self.refmon:
+                self.a.close_slot('R0')
+                self.refmon = False
+                self.dead.add('R0')
+            d = self.a.impl_key()
+            left = [line for line in d.split('|') if line.startswith('monitor ') or line.startswith('mrule ') or (line.startswith('conns ') and 'n_monitors=0' not in line)]
+            if left:
+                out.append(Violation('departed-monitor-left-behind', 'dump', '%s: after the monitor closed its connection the bus still holds %s' % (desc, left[:3]), None))
+            self.hit('monitor-disconnects')
         # collect observations
         received = []
         if self.monitor is not None:
